@@ -30,6 +30,7 @@ import (
 	"sync"
 	"testing"
 	"time"
+	"unicode"
 
 	kit "golang.org/x/perf/internal/verifkit"
 	"golang.org/x/perf/internal/verifkit/shwords"
@@ -337,6 +338,21 @@ type c19Model struct {
 	hasEmptyName bool
 	recsL        [][]c19Rec // per upload, loose label equality (root-cause recognition only)
 	hasEmptyVal  bool
+	// kindMoves counts consecutive results whose labels are the same set of
+	// key/value pairs but differently divided into file and name-derived labels
+	// (evidence only).
+	kindMoves int
+}
+
+func c19Union(a, b map[string]string) map[string]string {
+	out := make(map[string]string, len(a)+len(b))
+	for k, v := range a {
+		out[k] = v
+	}
+	for k, v := range b {
+		out[k] = v
+	}
+	return out
 }
 
 type c19ResolvedTerm struct {
@@ -986,6 +1002,12 @@ func (m *c19Model) finish(s *c19Sys, ups []c19Upload) *kit.Fail {
 				}
 			}
 		}
+		for j := 1; j < len(rs); j++ {
+			a, b := rs[j-1], rs[j]
+			if !c19EqualMaps(a.Name, b.Name) && c19EqualMaps(c19Union(a.Labels, a.Name), c19Union(b.Labels, b.Name)) {
+				m.kindMoves++
+			}
+		}
 		m.recs = append(m.recs, c19Coalesce(rs, false))
 		m.recsF = append(m.recsF, c19Coalesce(rs, true))
 		m.recsL = append(m.recsL, c19CoalesceLoose(rs))
@@ -1074,6 +1096,10 @@ func c19Check(c c19Case) *kit.Fail {
 		}
 	}
 	c19Outcomes.Store(c.ID, len(m.ups) == len(c.Uploads) && len(m.ups) > 0)
+	if m.kindMoves > 0 {
+		kit.Count("c19_cases_with_label_changing_kind_between_consecutive_results", 1)
+		kit.Count("c19_label_changes_kind_between_consecutive_results", int64(m.kindMoves))
+	}
 	return nar.f
 }
 
@@ -1108,42 +1134,182 @@ func c19GenVal(r *kit.Rand) string {
 
 type c19Gen struct {
 	r             *kit.Rand
-	keys          []string
-	vals          []string
+	keys          []string // keys of file labels
+	vals          []string // values of file labels (some are legal sub-name values too)
+	subKeys       []string // keys of key=value sub-names; may overlap with keys
 	emptyNameVals bool
 }
 
-func (g *c19Gen) benchLine(prev *c19Line) c19Line {
+// c19LegalSubKey: k can be the key of a `/k=v` part of a benchmark name under
+// the monitor's name grammar (and is not a key the name always defines).
+func c19LegalSubKey(k string) bool {
+	return k != "" && k != "name" && !strings.ContainsAny(k, "/=-") && strings.IndexFunc(k, unicode.IsSpace) < 0
+}
+
+// c19LegalSubVal: v can be the value of a name part under the monitor's name
+// grammar (no '/', '=', '-', nothing that ends the name field) and, being
+// non-empty, also the value of a file label.
+func c19LegalSubVal(v string) bool {
+	return v != "" && !strings.ContainsAny(v, "/=-") && strings.IndexFunc(v, unicode.IsSpace) < 0
+}
+
+// c19SubN returns N for a key of the form subN (N >= 1, no leading zero).
+func c19SubN(k string) (int, bool) {
+	d := strings.TrimPrefix(k, "sub")
+	if d == k || d == "" || d[0] == '0' || len(d) > 3 {
+		return 0, false
+	}
+	n, err := strconv.Atoi(d)
+	if err != nil || strconv.Itoa(n) != d {
+		return 0, false
+	}
+	return n, true
+}
+
+// c19NameKeys lists the keys of the labels derived from l's benchmark name,
+// with repetitions.
+func c19NameKeys(l c19Line) []string {
+	ks := []string{"name"}
+	for i, sub := range l.Subs {
+		if sub.Key != "" {
+			ks = append(ks, string(sub.Key))
+		} else {
+			ks = append(ks, "sub"+strconv.Itoa(i+1))
+		}
+	}
+	if l.Procs != "" {
+		ks = append(ks, "gomaxprocs")
+	}
+	return ks
+}
+
+// c19LineOK reports whether benchmark line l is inside the monitor's domain
+// when the file labels in force are cur: every name-derived key occurs once
+// (the derivation for `/sub1=a/b` or `/gomaxprocs=2-4` is not documented) and
+// none of them is also a file label (the documented restriction: such an
+// upload is refused, which is C20's subject).
+func c19LineOK(l c19Line, cur map[string]string) bool {
+	seen := map[string]bool{}
+	for _, k := range c19NameKeys(l) {
+		if _, clash := cur[k]; clash || seen[k] {
+			return false
+		}
+		seen[k] = true
+	}
+	return true
+}
+
+func (g *c19Gen) benchLine(prev *c19Line, cur map[string]string) c19Line {
 	r := g.r
-	if prev != nil && r.Chance(0.45) {
+	if prev != nil && r.Chance(0.45) && c19LineOK(*prev, cur) {
 		// same name again (coalesces unless a label changed in between)
 		l := *prev
 		l.Rest = kit.B(g.rest())
 		return l
 	}
-	l := c19Line{K: c19Bench, Base: kit.B(kit.Pick(r, c19Bases))}
-	ns := r.Intn(3)
-	used := map[string]bool{}
-	for i := 0; i < ns; i++ {
-		sub := c19Sub{Val: kit.B(kit.Pick(r, c19SubVals))}
-		if g.emptyNameVals && r.Chance(0.3) {
-			sub.Val = ""
-		}
-		if r.Chance(0.6) {
-			k := kit.Pick(r, c19SubKeys)
-			if used[k] {
-				continue
+	for try := 0; try < 30; try++ {
+		l := c19Line{K: c19Bench, Base: kit.B(kit.Pick(r, c19Bases))}
+		ns := r.Intn(3)
+		used := map[string]bool{}
+		for i := 0; i < ns; i++ {
+			sub := c19Sub{Val: kit.B(kit.Pick(r, c19SubVals))}
+			if r.Chance(0.25) {
+				// a value that file labels of this scenario use as well
+				if v := kit.Pick(r, g.vals); c19LegalSubVal(v) {
+					sub.Val = kit.B(v)
+				}
 			}
-			used[k] = true
-			sub.Key = kit.B(k)
+			if g.emptyNameVals && r.Chance(0.3) {
+				sub.Val = ""
+			}
+			if r.Chance(0.6) {
+				k := kit.Pick(r, g.subKeys)
+				if used[k] {
+					continue
+				}
+				used[k] = true
+				sub.Key = kit.B(k)
+			}
+			l.Subs = append(l.Subs, sub)
 		}
-		l.Subs = append(l.Subs, sub)
+		if r.Chance(0.4) {
+			l.Procs = kit.B(kit.Pick(r, []string{"1", "4", "16"}))
+		}
+		l.Rest = kit.B(g.rest())
+		if c19LineOK(l, cur) {
+			return l
+		}
 	}
-	if r.Chance(0.4) {
-		l.Procs = kit.B(kit.Pick(r, []string{"1", "4", "16"}))
-	}
+	// only the label `name`, which is never a file label
+	return c19Line{K: c19Bench, Base: kit.B(kit.Pick(r, c19Bases)), Rest: kit.B(g.rest())}
+}
+
+// migrate continues a file after benchmark line prev with a result that
+// differs from prev by ONE label changing its kind: a file label k=v is
+// deleted and the name gains the part that derives k=v (`/k=v`, a positional
+// part for subN, `-N` for gomaxprocs), or the other way round. The union of
+// all labels of the two results is the same, their file labels and
+// name-derived labels are not, so they are different records. cur is updated.
+func (g *c19Gen) migrate(prev c19Line, cur map[string]string) ([]c19Line, bool) {
+	r := g.r
+	l := prev
+	l.Subs = append([]c19Sub(nil), prev.Subs...)
 	l.Rest = kit.B(g.rest())
-	return l
+	if r.Bool() {
+		// file label -> name
+		var ks []string
+		for k, v := range cur {
+			if c19LegalSubKey(k) && c19LegalSubVal(v) {
+				ks = append(ks, k)
+			}
+		}
+		if len(ks) == 0 {
+			return nil, false
+		}
+		sort.Strings(ks)
+		k := kit.Pick(r, ks)
+		v := cur[k]
+		if n, isSub := c19SubN(k); isSub {
+			if n != len(l.Subs)+1 {
+				return nil, false
+			}
+			l.Subs = append(l.Subs, c19Sub{Val: kit.B(v)})
+		} else if k == "gomaxprocs" && l.Procs == "" && len(v) <= 3 && strings.Trim(v, "0123456789") == "" && v[0] != '0' && r.Chance(0.7) {
+			l.Procs = kit.B(v)
+		} else {
+			l.Subs = append(l.Subs, c19Sub{Key: kit.B(k), Val: kit.B(v)})
+		}
+		delete(cur, k)
+		if !c19LineOK(l, cur) {
+			cur[k] = v
+			return nil, false
+		}
+		return []c19Line{{K: c19Del, Key: kit.B(k)}, l}, true
+	}
+	// name -> file label: the -N suffix or the last part of the name
+	var k, v string
+	switch n := len(l.Subs); {
+	case l.Procs != "" && (n == 0 || r.Bool()):
+		k, v = "gomaxprocs", string(l.Procs)
+		l.Procs = ""
+	case n > 0:
+		k, v = string(l.Subs[n-1].Key), string(l.Subs[n-1].Val)
+		if k == "" {
+			k = "sub" + strconv.Itoa(n)
+		}
+		l.Subs = l.Subs[:n-1]
+	default:
+		return nil, false
+	}
+	if _, set := cur[k]; set || v == "" {
+		return nil, false
+	}
+	cur[k] = v
+	if !c19LineOK(l, cur) {
+		delete(cur, k)
+		return nil, false
+	}
+	return []c19Line{{K: c19Set, Key: kit.B(k), Val: kit.B(v), Sep: " "}, l}, true
 }
 
 func (g *c19Gen) rest() string {
@@ -1164,21 +1330,33 @@ func (g *c19Gen) file(maxLines int) c19File {
 	f := c19File{Name: kit.B(kit.Pick(r, c19FileNms))}
 	n := r.Range(2, maxLines)
 	var prev *c19Line
+	cur := map[string]string{} // file labels in force
 	for i := 0; i < n; i++ {
 		switch x := r.Intn(100); {
 		case x < 30:
-			f.Lines = append(f.Lines, c19Line{K: c19Set, Key: kit.B(kit.Pick(r, g.keys)), Val: kit.B(kit.Pick(r, g.vals)), Sep: kit.B(kit.Pick(r, c19Seps))})
+			k, v := kit.Pick(r, g.keys), kit.Pick(r, g.vals)
+			cur[k] = v
+			f.Lines = append(f.Lines, c19Line{K: c19Set, Key: kit.B(k), Val: kit.B(v), Sep: kit.B(kit.Pick(r, c19Seps))})
 		case x < 40:
-			f.Lines = append(f.Lines, c19Line{K: c19Del, Key: kit.B(kit.Pick(r, g.keys)), Sep: kit.B(kit.Pick(r, []string{"", "", " ", "\t "}))})
+			k := kit.Pick(r, g.keys)
+			delete(cur, k)
+			f.Lines = append(f.Lines, c19Line{K: c19Del, Key: kit.B(k), Sep: kit.B(kit.Pick(r, []string{"", "", " ", "\t "}))})
 		case x < 50:
 			f.Lines = append(f.Lines, c19Line{K: c19Junk, Junk: kit.B(kit.Pick(r, c19Junks))})
+		case x < 60 && prev != nil:
+			if ls, ok := g.migrate(*prev, cur); ok {
+				f.Lines = append(f.Lines, ls...)
+				prev = &f.Lines[len(f.Lines)-1]
+				break
+			}
+			fallthrough
 		default:
-			l := g.benchLine(prev)
+			l := g.benchLine(prev, cur)
 			f.Lines = append(f.Lines, l)
 			prev = &f.Lines[len(f.Lines)-1]
 		}
 	}
-	l := g.benchLine(prev)
+	l := g.benchLine(prev, cur)
 	f.Lines = append(f.Lines, l)
 	return f
 }
@@ -1219,7 +1397,7 @@ func (g *c19Gen) queries(c *c19Case, n int) {
 		}
 		all = append(all, c19Coalesce(c19Results(i, u, c19Server{ID: fmt.Sprintf("@%d", i), FileIDs: fid, Time: "@t"}), false)...)
 	}
-	nameKeys := []string{"name", "gomaxprocs", "sub1", "sub2", "size", "mode"}
+	nameKeys := append([]string{"name", "gomaxprocs", "sub1", "sub2"}, g.subKeys...)
 	// term builds one term; forceKey != "" pins the key. Values are mostly taken
 	// from the target record so that the term can hold.
 	term := func(target *c19Rec, forceKey string) c19Term {
@@ -1412,8 +1590,33 @@ func c19NewGen(r *kit.Rand) *c19Gen {
 	keys := append([]string{}, c19FileKeys...)
 	kit.Shuffle(r, keys)
 	g.keys = keys[:r.Range(2, 4)]
+	// The statement treats file labels and name-derived labels as ONE label
+	// space for queries but as distinct kinds for a record's identity, so the
+	// two kinds share keys and values: some scenarios use name-derived keys as
+	// file keys, some use file keys as sub-name keys, and some file values are
+	// legal sub-name values. (A key is never both in ONE result: c19LineOK.)
+	g.subKeys = append([]string{}, c19SubKeys...)
+	if r.Chance(0.5) {
+		g.keys = append(g.keys, kit.Pick(r, []string{"size", "mode", "sub1", "sub2", "gomaxprocs"}))
+	}
+	if r.Chance(0.5) {
+		for _, k := range g.keys {
+			if c19LegalSubKey(k) {
+				if _, isSub := c19SubN(k); !isSub && r.Bool() {
+					g.subKeys = append(g.subKeys, k)
+				}
+			}
+		}
+	}
+	if r.Chance(0.3) {
+		g.subKeys = append(g.subKeys, "gomaxprocs") // the documented long form of -N
+	}
 	nv := r.Range(3, 8)
 	for i := 0; i < nv; i++ {
+		if r.Chance(0.3) {
+			g.vals = append(g.vals, kit.Pick(r, append(append([]string{}, c19SubVals...), "4")))
+			continue
+		}
 		g.vals = append(g.vals, c19GenVal(r))
 	}
 	// close neighbours in the bytewise order make range terms interesting
@@ -1551,6 +1754,37 @@ func c19EdgeCases(thorough bool, yield func(c19Case)) {
 		}
 		yield(c)
 
+		// (7) the coalescing rule's near misses: consecutive results whose labels
+		// are the same set of key/value pairs, but one pair is a file label of one
+		// result and a name-derived label of the other - for each kind of
+		// name-derived label (key=value part, positional part, -N) and both
+		// directions. Three records per file, never one.
+		c = c19Case{ID: id, Direct: direct}
+		id++
+		del := func(k string) c19Line { return c19Line{K: c19Del, Key: kit.B(k)} }
+		c.Uploads = []c19Upload{{Files: []c19File{
+			{Name: "kv.txt", Lines: []c19Line{
+				c19SetL("zone", "x"), c19BenchL("A", " 1 1 ns/op"),
+				del("zone"), c19BenchL("A", " 1 2 ns/op", c19Sub{Key: "zone", Val: "x"}),
+				c19SetL("zone", "x"), c19BenchL("A", " 1 3 ns/op"),
+			}},
+			{Name: "procs.txt", Lines: []c19Line{
+				c19SetL("gomaxprocs", "4"), c19BenchL("B", " 1 1 ns/op"),
+				del("gomaxprocs"), {K: c19Bench, Base: "B", Procs: "4", Rest: " 1 2 ns/op"},
+				c19SetL("gomaxprocs", "4"), c19BenchL("B", " 1 3 ns/op"),
+			}},
+			{Name: "pos.txt", Lines: []c19Line{
+				c19SetL("sub1", "q"), c19BenchL("C", " 1 1 ns/op"),
+				del("sub1"), c19BenchL("C", " 1 2 ns/op", c19Sub{Val: "q"}),
+				c19SetL("sub1", "q"), c19BenchL("C", " 1 3 ns/op"),
+			}},
+		}}}
+		for _, ts := range [][]c19Term{{}, {c19T("zone", ":", "x")}, {c19T("gomaxprocs", ":", "4")}, {c19T("sub1", ":", "q")},
+			{c19T("name", ":", "A")}, {c19T("zone", ">", "w"), c19T("zone", "<", "y")}, {c19T("upload-file", ":", "procs.txt")}} {
+			c.Queries = append(c.Queries, c19Query{Terms: ts, Render: uint64(len(c.Queries)), Limit: 1})
+		}
+		yield(c)
+
 		// (4) label values and lines that end in a carriage return
 		c = c19Case{ID: id, Direct: direct}
 		id++
@@ -1604,11 +1838,11 @@ func c19StoreClasses() []kit.Runner {
 		kit.Class[c19Case]{
 			Name: "c19-store", Quick: 300, Thorough: 6000,
 			Gen: c19GenCase, Check: c19Check, NonTrivial: c19NonTrivial, MinNonTrivial: 120,
-			Rule: "1-12 uploads of 1-3 files built from label histories (set / change / delete over 2-4 keys and a pool of hostile values: blanks, quotes, backslashes, :<>, UTF-8, invalid UTF-8, neighbours in bytewise order), benchmark names with sub-keys, positional parts and -N, repeated names (coalescing), junk lines; 40 (thorough 100) queries of 0-6 terms over present/absent keys incl. upload/upload-part/by/name labels, repeated keys (redundant, contradictory), values needing quoting, spelled in random shell-style quoting; each query observed at db.DB.Query/ListUploads (limit 0 and 1..n+1) and, for HTTP-origin cases, through storage.Client. Non-trivial: every upload accepted, some label history, some query with two terms on one key.",
+			Rule: "1-12 uploads of 1-3 files built from label histories (set / change / delete over 2-5 keys and a pool of hostile values: blanks, quotes, backslashes, :<>, UTF-8, invalid UTF-8, neighbours in bytewise order), benchmark names with sub-keys, positional parts and -N, repeated names (coalescing), junk lines; file labels and name-derived labels share keys (size, mode, sub1, sub2, gomaxprocs as file keys; file keys as /k=v keys) and values, never within one result, and about one result in ten follows its predecessor with one label moved from the file to the name or back; 40 (thorough 100) queries of 0-6 terms over present/absent keys incl. upload/upload-part/by/name labels, repeated keys (redundant, contradictory), values needing quoting, spelled in random shell-style quoting; each query observed at db.DB.Query/ListUploads (limit 0 and 1..n+1) and, for HTTP-origin cases, through storage.Client. Non-trivial: every upload accepted, some label history, some query with two terms on one key.",
 		},
 		kit.Class[c19Case]{
 			Name: "c19-edge", Enum: c19EdgeCases, Check: c19Check,
-			Rule: "enumerated witnesses: contradictory listings, key>\"\" against empty name-derived values, CR-terminated label values and lines; db-origin and HTTP-origin each",
+			Rule: "enumerated witnesses: contradictory listings, key>\"\" against empty name-derived values, empty-vs-missing name labels, a key/value pair that is a file label of one result and a name-derived label of the next (key=value part, positional part, -N; both directions), CR-terminated label values and lines; db-origin and HTTP-origin each",
 		},
 		kit.Class[c19Case]{
 			Name: "c19-flush", Quick: 6, Thorough: 60, Gen: c19FlushCase, Check: c19Check,
